@@ -11,8 +11,8 @@
    ["DONE", id, events] or ["BAD", id, position, expected, observed]. *)
 EXTENDS Hashes, Json, IOUtils
 Rec == ndJsonDeserialize(IOEnv.TRACE)
-VARIABLES hi, l, st, ok
-vars == <<hi, l, st, ok>>
+VARIABLES hi, l, st, ok, res      \* res: the specification's answer for the event just consumed (evaluated once per step)
+vars == <<hi, l, st, ok, res>>
 
 Has(r, f) == f \in DOMAIN r
 OutLenOf(h) == IF IsBlake(h.alg) THEN (IF Has(h, "outlen") THEN h.outlen ELSE (h.bits + 7) \div 8)
@@ -65,15 +65,15 @@ Apply(h, s, e) ==
             ELSE [st |-> s, out |-> P]
        [] e.op = "set_counter" -> [st |-> [s EXCEPT ![x].start = CtrOf(h, e)], out |-> N]
 
-Init == hi \in 1..Len(Rec) /\ l = 1 /\ st = Fresh(Rec[hi]) /\ ok = TRUE
+Init == hi \in 1..Len(Rec) /\ l = 1 /\ st = Fresh(Rec[hi]) /\ ok = TRUE /\ res = <<>>
 Step == /\ ok /\ l <= Len(Rec[hi].ev)
+        /\ res' = Apply(Rec[hi], st, Rec[hi].ev[l])
         /\ LET h == Rec[hi]
                e == h.ev[l]
-               r == Apply(h, st, e)
-               good == e.out.k = r.out.k /\ e.out.v = r.out.v
-           IN /\ st' = IF good THEN r.st ELSE st
+               good == e.out.k = res'.out.k /\ e.out.v = res'.out.v
+           IN /\ st' = IF good THEN res'.st ELSE st
               /\ ok' = good
-              /\ IF good THEN TRUE ELSE PrintT(ToJson(<<"BAD", h.id, l, r.out, e.out>>))
+              /\ IF good THEN TRUE ELSE PrintT(ToJson(<<"BAD", h.id, l, res'.out, e.out>>))
               /\ IF good /\ l = Len(h.ev) THEN PrintT(ToJson(<<"DONE", h.id, l>>)) ELSE TRUE
         /\ l' = l + 1 /\ UNCHANGED hi
 Spec == Init /\ [][Step]_vars
